@@ -60,7 +60,11 @@ use keep_alive::Guard;
 use keep_alive::Parent;
 use metrique_writer_core::EntrySink;
 use std::fmt::Debug;
+#[cfg(not(metrique_verif_loom))]
 use std::sync::Arc;
+// verification builds only: handle reference counts become scheduler-visible
+#[cfg(metrique_verif_loom)]
+use metrique_writer_core::__verif::varc::Arc;
 
 pub use metrique_core::{CloseValue, CloseValueRef, Counter, InflectableEntry, NameStyle};
 
@@ -329,6 +333,9 @@ impl<E: CloseEntry + Send + Sync + 'static, S: EntrySink<RootMetric<E>> + Send +
     /// ```
     pub fn handle(self) -> AppendAndCloseOnDropHandle<E, S> {
         AppendAndCloseOnDropHandle {
+            #[cfg(metrique_verif_loom)]
+            inner: Arc::new(self),
+            #[cfg(not(metrique_verif_loom))]
             inner: std::sync::Arc::new(self),
         }
     }
